@@ -232,7 +232,11 @@ def ex_file(ctx, fmt, n, seed, variant=0):
                             tags=dict(tags, clause="fields", fields=bad))
                 return
         with open(path, "rb") as f:
-            dg = digest(f.read())
+            raw = f.read()
+            dg = digest(raw)
+        if ctx.evaluations % 37 == 0:
+            ctx.sample({"format": fmt, "records": n, "file_head": raw.decode("latin-1").splitlines()[:3 if fmt != "ndk" else 5],
+                        "decoded_head": [[int(r_[1]), r_[2], r_[3], r_[4], r_[5]] for r_ in rows[:2]], "expected_ms_range_head": [list(e_[:2]) for e_ in exp[:2]]}, cap=8)
         if n >= 2 and (any(e_["roll"] for e_ in ev) or any(e_.get("offset") for e_ in ev) or any(e_["lat"] < 0 or e_["lon"] < 0 for e_ in ev)):
             ctx.nt(dg)
     finally:
